@@ -45,6 +45,7 @@ def gen_thread(rng, t, max_ops):
   counter = [0]
   tok = [base * 10]
   fn_of = []
+  tv_ids = []
 
   def token():
     tok[0] += 1
@@ -61,8 +62,13 @@ def gen_thread(rng, t, max_ops):
     if r < 0.75:
       return {'list': [child(depth + 1) for _ in range(rng.randint(0, 2))]}
     if r < 0.85:
+      if tv_ids and rng.random() < 0.3:
+        return {'share': rng.choice(tv_ids)}   # the SAME TaggedValue object again
+      tid_ = base * 100 + len(tv_ids) + 1
+      tv_ids.append(tid_)
       return {'tv': {'tags': [rng.choice(TAG_NAMES)],
-                     **({'value': token()} if rng.random() < 0.7 else {})}}
+                     **({'value': token()} if rng.random() < 0.7 else {})},
+              'id': tid_}
     return {'node': {'btype': 'Config', 'fn': 'n0', 'args': [],
                      'kwargs': {'uid': uid(), 'x': child(depth + 1)}}}
 
@@ -406,7 +412,8 @@ class Checker:
                 f'{set(a_tags.get(k, frozenset()))}', op=label))
             return
       if not raised and self.n_before and cfg is env.cfgs[op.get('c', 0) % self.n_before]:
-        plain = not (isinstance(op.get('v'), dict) and 'tv' in op['v'])
+        plain = not (isinstance(op.get('v'), dict)
+                     and ('tv' in op['v'] or 'share' in op['v']))
         if label in ('setattr', 'delattr') or (
             label == 'setitem' and 'v' in op):
           if plain and (n_val, n_tag) != (1, 0):
